@@ -34,7 +34,7 @@ MovesCore(h, kn) ==
     IN  MapS(ie, LAMBDA e : MMutate(i, <<KV("x", e)>>))
         \o MapS(Take(ie, 4), LAMBDA e : MMutate(i, <<KV(nm1, e)>>))                  \* overwrite the first column
         \o MapS(ps, LAMBDA p : MFilter(i, <<p>>))
-        \o MapS(t.vis, LAMBDA c : MDrop(i, <<Col(c)>>))
+        \o (IF Len(t.vis) >= 2 THEN MapS(t.vis, LAMBDA c : MDrop(i, <<Col(c)>>)) ELSE <<>>)     \* a table without columns has no documented meaning
         \o (IF Len(t.vis) >= 2 THEN <<MSelect(i, <<Col(t.vis[2]), Col(t.vis[1])>>),
                                      MRename(i, <<[c |-> CN(t.nm[t.vis[1]]), n |-> t.nm[t.vis[2]]],
                                                   [c |-> CN(t.nm[t.vis[2]]), n |-> t.nm[t.vis[1]]]>>)>> ELSE <<>>)
